@@ -19,7 +19,8 @@ RULE = ("Hypothesis-generated cond-out trees: package directories over the ident
         "dir, a file, a recorded sibling with the same name, or the same name/ts recorded under another package). "
         "Distinct = SHA-1 of case JSON."
         " Also generated: symbolic links planted in cond-out (to a directory outside, an alias of a package, a link named like a version) and directories whose names end in a newline - none of them may be deleted, listed or traversed."
-        " Task output directories may hold symbolic links (absolute and relative, at depth 1 and 2) to a data directory outside cond-out, to another task's output directory, to a file, and dangling ones: whatever they point to must be unchanged after gc.")
+        " Task output directories may hold symbolic links (absolute and relative, at depth 1 and 2) to a data directory outside cond-out, to another task's output directory, to a file, and dangling ones: whatever they point to must be unchanged after gc."
+        " In a quarter of the cases gc is run by an ordinary user (the forked child drops root) on a project it owns whose task outputs contain read-only directories.")
 ASSUMPTIONS = ["only directories whose names are valid package names, task directories of either form, files, and symbolic "
                "links placed by hand are generated (stray directories with other names are not: the property does not say "
                "what they are); a symbolic link is never an experiment output directory, and nothing may be deleted or listed "
@@ -27,7 +28,7 @@ ASSUMPTIONS = ["only directories whose names are valid package names, task direc
                "gc is invoked from the project root (cwd variation belongs to C17)"]
 ESSENTIAL = ["nested_lookalike", "recorded_same_name_other_pkg", "depth>=2", "row_without_dir", "dry_run", "verbose",
              "root_package_exp", "file_lookalike", "nothing_to_delete", "name_with_dash_or_underscore",
-             "name_with_trailing_newline", "symlink_inside_task_output"]
+             "name_with_trailing_newline", "symlink_inside_task_output", "run_by_an_ordinary_user_with_read_only_directories"]
 TECHNIQUE = "property-based testing (Hypothesis) of the real CLI on generated cond-out trees; independently computed deletion set + tree snapshots as oracle"
 LEVEL_TEXT = "Randomised search over cond-out trees and index contents; exact-set oracle in both directions (deleted == expected, everything else byte-identical)."
 LEVEL_NOTE = "Trusted: the deletion-set model in this file; vf/trees.py snapshots."
@@ -63,6 +64,9 @@ def _strategy(draw, tier):
             "stray_files": draw(st.booleans()),
             # directories whose names only LOOK like task output directories: a trailing newline is not part of any task name
             "newline_dirs": draw(st.sampled_from([False, False, True])),
+            # gc run by an ordinary user on outputs that contain read-only directories (a Go module cache, a Nix/Bazel
+            # style store, `chmod -R a-w` of intermediate results): the user owns them, gc has to get rid of them
+            "readonly": draw(st.sampled_from([False, False, False, True])),
             # manual additions: symbolic links placed in cond-out by hand
             "links": draw(st.sampled_from([[], [], [], ["outside"], ["alias"], ["tasklike"], ["outside", "alias", "tasklike"]]))}
 
@@ -98,6 +102,7 @@ def build(root, case):
     with open(os.path.join(root, "COND"), "w") as f:
         f.write("")
     rows = set()
+    readonly_dirs = []
     made = {}   # relpath (under cond-out) -> kind ; first writer wins
     expected = set()
     labels = set()
@@ -129,6 +134,9 @@ def build(root, case):
             labels.add("nested_lookalike")
         if inner in ("nested_task", "nested_both"):
             trees.write_tree(p, [["z.task", None], ["z.task/k.txt", "k"]])
+        if case.get("readonly") and kind in ("exp", "task"):
+            trees.write_tree(p, [["cache/pkg/mod/f.txt", "read-only"], ["cache/pkg/mod/sub/g.txt", "g"]])
+            readonly_dirs.append(p)
         if inner == "links":
             # what tasks do with their inputs: links (at depth 1 and 2) to a data directory outside cond-out, to the
             # output directory of another task (the previous entry, recorded or not, or a run_command output), to a
@@ -217,6 +225,14 @@ def build(root, case):
         projgen.seed_rows(root, [(t, ts, None, False) for t, ts in sorted(rows)], make_dirs=False)
     else:
         projgen.seed_rows(root, [], make_dirs=False)
+    if case.get("readonly"):
+        labels.add("run_by_an_ordinary_user_with_read_only_directories")
+        from ..isolate import chown_tree
+        chown_tree(root)
+        os.chmod(root, 0o755)
+        for p in readonly_dirs:
+            for sub in ("cache/pkg/mod/sub", "cache/pkg/mod", "cache/pkg"):
+                os.chmod(os.path.join(p, sub), 0o555)
     return expected, rows, labels
 
 
@@ -227,7 +243,8 @@ def run_case(case):
         before = trees.snapshot(root)
         rows_before = projgen.read_rows(root)
         flags = case["flags"]
-        res = run_cond(root, ["gc"] + flags)
+        from ..isolate import drop_privileges
+        res = run_cond(root, ["gc"] + flags, pre=drop_privileges if case.get("readonly") else None)
         after = trees.snapshot(root)
         rows_after = projgen.read_rows(root)
         v = []
